@@ -100,6 +100,11 @@ pub fn check_ep(ep: &EnergyPerformance, cfg: &str, out: &mut Out) {
             out.viol("vector_length", &[], cfg, format!("{crs} has {len} steps"), format!("{n}"));
         }
         for i in 0..len {
+            // per-step identities are judged against the magnitude of what enters THAT step of this carrier (a surplus of
+            // 0.25 kWh in December is not noise because January moves 1e6 kWh)
+            let stepmag: f64 = [&in_epus, &in_nepus, &in_cgn].iter().map(|m| m.get(&crs).and_then(|v| v.get(i)).copied().unwrap_or(0.0).abs()).sum::<f64>()
+                + in_prod.iter().filter(|((c, _), _)| *c == crs).map(|(_, v)| v.get(i).copied().unwrap_or(0.0).abs()).sum::<f64>();
+            let t = t.min(2e-5 * stepmag + 1e-6);
             let prod = b.prod.t[i] as f64;
             let pe = b.prod.epus_t[i] as f64;
             let ex = b.exp.t[i] as f64;
@@ -299,8 +304,17 @@ pub fn vals(ctx: &Ctx) -> Vec<V> {
 pub fn run(ctx: &Ctx) -> i32 {
     let shared = Shared::new("C01", ctx);
     let v = vals(ctx);
+    explore(ctx, "VOCAB: every (service, carrier) pair / cogeneration fuel / production source added to a small building", Wide { alphabet: alpha::vocab_letters(), bases: alpha::vocab_base(), max_add: if ctx.quick() { 1 } else { 2 }, repeat: false }, C01, shared.clone());
+    explore(ctx, "TINY: values around the absolute thresholds of the code (1e-3, 0.01 kWh), depth<=4", Wide { alphabet: alpha::tiny_letters(), bases: alpha::bases(false), max_add: 4, repeat: false }, C01, shared.clone());
+    explore(ctx, "LONG: complete buildings with 13, 24, 31, 52, 365 and 8760 steps", Wide { alphabet: vec![], bases: alpha::long_bases(), max_add: 0, repeat: false }, C01, shared.clone());
+    explore(ctx, "MAG12: 12-step lines of 1e6 kWh with a last step of hundredths of a kWh, depth<=4", Wide { alphabet: alpha::mag12_letters(), bases: alpha::bases(false), max_add: 4, repeat: false }, C01, shared.clone());
     if ctx.quick() {
         explore(ctx, "FLOW wide T=2 depth<=3", Wide { alphabet: alpha::flow(2, &v, Rich::Base), bases: alpha::bases(false), max_add: 3, repeat: false }, C01, shared.clone());
+        explore(ctx, "FLOW wide T=3 {0,1,3} depth<=2", Wide { alphabet: alpha::flow(3, &v, Rich::Base), bases: alpha::bases(false), max_add: 2, repeat: false }, C01, shared.clone());
+        explore(ctx, "FLOW wide T=2 decimal depth<=2", Wide { alphabet: alpha::flow(2, &[0, 1, 3333], Rich::Base), bases: alpha::bases(false), max_add: 2, repeat: false }, C01, shared.clone());
+        explore(ctx, "FLOW wide T=2 large depth<=2", Wide { alphabet: alpha::flow(2, &[0, 123456, 100 << 20], Rich::Base), bases: alpha::bases(false), max_add: 2, repeat: false }, C01, shared.clone());
+        let opts = vec![k(&[1, 0]), k(&[3, 1])];
+        explore(ctx, "FLOW deep 10 slots x 3", Layered { slots: alpha::flow_slots(2, &opts, Rich::Base), bases: alpha::bases(false) }, C01, shared.clone());
     } else {
         explore(ctx, "FLOW wide T=2 depth<=4", Wide { alphabet: alpha::flow(2, &v, Rich::Base), bases: alpha::bases(false), max_add: 4, repeat: false }, C01, shared.clone());
         explore(ctx, "FLOW wide(rich) T=2 depth<=3", Wide { alphabet: alpha::flow(2, &v, Rich::Wide), bases: alpha::bases(false), max_add: 3, repeat: true }, C01, shared.clone());
